@@ -170,14 +170,47 @@ class HNonAsync(NonAsyncContext):
     pass
 
 
+class CtxWrap(object):
+    """Delegating context manager: logs the with-block's enter/exit as aux events (impl-side only)."""
+
+    def __init__(self, T, tid, spec, real):
+        self.T, self.tid, self.spec, self.real = T, tid, spec, real
+
+    def __enter__(self):
+        self.T.aux({"AuxEnter": [list(self.tid), self.spec]})
+        return self.real.__enter__()
+
+    def __exit__(self, ty, val, tb):
+        try:
+            return self.real.__exit__(ty, val, tb)
+        finally:
+            self.T.aux({"AuxExit": [list(self.tid), self.spec, "None" if ty is None else ty.__name__]})
+
+
+class _EvList(list):
+    """T.ev: model-visible events; every append is mirrored into T.full (model-visible + aux)."""
+
+    def __init__(self, full):
+        list.__init__(self)
+        self.full = full
+
+    def append(self, e):
+        list.append(self, e)
+        self.full.append(e)
+
+
 class Tr:
     def __init__(self, case):
-        self.ev = []
+        self.full = []
+        self.ev = _EvList(self.full)
         self.kinds = case.get("params", {}).get("kinds", {})
         self.registry = {}
         self.objs = {}     # id(future) -> (path, future)   (keeps the objects alive)
         self.vars = {}
         self.errs = {}
+
+    def aux(self, e):
+        self.full.append(e)
 
     # --- values / exceptions
     def pyval(self, v):
@@ -201,15 +234,16 @@ class Tr:
         _n[0] += 1
         return cid
 
-    def _reg(self, cid, f):
+    def _reg(self, cid, f, what, creator, extra=None):
         self.objs[id(f)] = (cid, f)
+        self.aux({"AuxCreate": [list(cid), what, list(creator), extra]})
         return f
 
     def new_task(self, fn, _id, _n):
         cid = self._alloc(_id, _n)
         h = fn.asynq(cid)
         h.on_computed.subscribe(lambda f, cid=cid: self.ev.append({"EvDone": [list(cid), peek(f)]}))
-        return self._reg(cid, h)
+        return self._reg(cid, h, "task", _id)
 
     def new_item(self, kind, key, act, _id, _n):
         cid = self._alloc(_id, _n)
@@ -218,29 +252,115 @@ class Tr:
             b = self.registry[kind] = HBatch(self, kind, 0)
         it = HItem(b, key, act, cid)
         it.on_computed.subscribe(lambda f, cid=cid: self.ev.append({"EvItemDone": [list(cid), peek(f)]}))
-        return self._reg(cid, it)
+        return self._reg(cid, it, "item", _id, [kind, b.index, key, act])
 
     def new_const(self, v, _id, _n):
-        return self._reg(self._alloc(_id, _n), ConstFuture(v))
+        return self._reg(self._alloc(_id, _n), ConstFuture(v), "const", _id)
 
     def new_error(self, e, _id, _n):
-        return self._reg(self._alloc(_id, _n), ErrorFuture(self.err(e)))
+        return self._reg(self._alloc(_id, _n), ErrorFuture(self.err(e)), "error", _id)
 
     def new_lazy(self, o, _id, _n):
         def provider():
             if "ok" in o:
                 return self.pyval(o["ok"])
             raise self.err(o["err"])
-        return self._reg(self._alloc(_id, _n), Future(provider))
+        cid = self._alloc(_id, _n)
+        f = Future(provider)
+        f.on_computed.subscribe(lambda f, cid=cid: self.aux({"AuxLazyDone": [list(cid)]}))
+        return self._reg(cid, f, "lazy", _id)
+
+    # --- the yielded structure, seen through the public API of the futures in it
+    def _leaves(self, y, out, shape):
+        """written order; returns whether only lists/tuples were used (no dict)"""
+        from asynq.futures import FutureBase
+        if y is None:
+            return
+        if isinstance(y, FutureBase):
+            ent = self.objs.get(id(y))
+            out.append((list(ent[0]) if ent else [-77], y))
+        elif type(y) in (tuple, list):
+            for x in y:
+                self._leaves(x, out, shape)
+        elif type(y) is dict:
+            shape["dict"] = True
+            for x in y.values():
+                self._leaves(x, out, shape)
+        else:
+            out.append(("bad", None))
+
+    def _expected(self, y):
+        """what a sequential evaluation delivers for y: same shape, each future replaced by its value; the first
+        failing leaf in structure order wins.  Returns ("ok", value) / ("err", exception object or TypeError marker)."""
+        from asynq.futures import FutureBase
+        if y is None:
+            return ("ok", None)
+        if isinstance(y, FutureBase):
+            if not y.is_computed():
+                return ("uncomputed", None)
+            e = y.error()
+            if e is not None:
+                return ("err", e)
+            return ("ok", y.value())
+        if type(y) in (tuple, list):
+            vals = []
+            for x in y:
+                r = self._expected(x)
+                if r[0] != "ok":
+                    return r
+                vals.append(r[1])
+            return ("ok", tuple(vals) if type(y) is tuple else vals)
+        if type(y) is dict:
+            d = {}
+            for k, x in y.items():
+                r = self._expected(x)
+                if r[0] != "ok":
+                    return r
+                d[k] = r[1]
+            return ("ok", d)
+        return ("err", TypeError)
+
+    def pre_yield(self, _id, _k, y):
+        lv, shape = [], {}
+        self._leaves(y, lv, shape)
+        self.aux({"AuxYield": [list(_id), _k[0], [l[0] for l in lv], not shape.get("dict", False)]})
+
+    def _post(self, _id, k, y, got_val, got_exc):
+        if y is None and k == 0:
+            return
+        lv, shape = [], {}
+        self._leaves(y, lv, shape)
+        unc = [l[0] for l in lv if l[1] is not None and not l[1].is_computed()]
+        exp = self._expected(y)
+        if exp[0] == "ok":
+            okay = got_exc is None and tv(got_val) == tv(exp[1]) and type(got_val) is type(exp[1])
+            expt = {"Ok": [tv(exp[1])]}
+        elif exp[0] == "err":
+            if exp[1] is TypeError:
+                okay = isinstance(got_exc, TypeError)
+                expt = {"Err": [-1]}
+            else:
+                okay = got_exc is exp[1]           # the very same exception instance
+                expt = {"Err": [eid(exp[1])]}
+        else:
+            okay, expt = False, "Uncomputed"
+        gott = {"Ok": [tv(got_val)]} if got_exc is None else {"Err": [eid(got_exc)]}
+        self.aux({"AuxResume": [list(_id), k, unc, expt, gott, "true" if okay else "false"]})
 
     # --- logging from generated bodies
-    def step(self, _id, _k, x):
+    def step(self, _id, _k, x, y):
+        self._post(_id, _k[0], y, x, None)
         self.ev.append({"EvStep": [list(_id), _k[0], {"Ok": [tv(x)]}]})
         _k[0] += 1
 
-    def step_err(self, _id, _k, e):
+    def step_err(self, _id, _k, e, y):
+        self._post(_id, _k[0], y, None, e)
         self.ev.append({"EvStep": [list(_id), _k[0], {"Err": [eid(e)]}]})
         _k[0] += 1
+
+    def pre_sync(self, _id, h):
+        ent = self.objs.get(id(h))
+        self.aux({"AuxSync": [list(_id), list(ent[0]) if ent else [-77]]})
 
     def got(self, _id, x):
         self.ev.append({"EvGot": [list(_id), {"Ok": [tv(x)]}]})
@@ -269,17 +389,20 @@ class Tr:
 
     def ctx(self, c, _id):
         if "async" in c:
-            return LoggedCtx(self, _id, c["async"][0], c["async"][1])
-        if "nonasync" in c:
-            return HNonAsync()
-        cid, var, v = c["override"]
-        return self.var(var).override(self.pyval(v))
+            real = LoggedCtx(self, _id, c["async"][0], c["async"][1])
+        elif "nonasync" in c:
+            real = HNonAsync()
+        else:
+            cid, var, v = c["override"]
+            real = self.var(var).override(self.pyval(v))
+        return CtxWrap(self, _id, c, real)
 
     def sched(self):
         s = str(scheduler.get_scheduler())
         m = re.search(r"\((\d+) tasks, (\d+) batches; active task: (.*)\)$", s, re.S)
         act = scheduler.get_active_task()
         self.ev.append({"EvSched": [int(m.group(1)), int(m.group(2)), self._path_of(act)]})
+        self.aux({"AuxVars": [[[n, tv(v.get())] for n, v in sorted(self.vars.items())]]})
 
 
 OPTION_NAMES = ["DUMP_PRE_ERROR_STATE", "DUMP_EXCEPTIONS", "DUMP_SCHEDULE_TASK", "DUMP_CONTINUE_TASK",
@@ -333,6 +456,7 @@ def run_case(c):
                 outs.append({"Some": [{"Err": [eid(e)]}]})
             T.sched()
         final_ev = list(T.ev)      # events after this point are finalisers of abandoned generators (GC), not asynq
+        final_full = list(T.full)
     finally:
         for k, v in saved.items():
             setattr(opts, k, v)
@@ -340,7 +464,7 @@ def run_case(c):
         scheduler.reset()
         profiler.reset()
     oracle = [e["EvBefore"] for e in final_ev if "EvBefore" in e]
-    return {"out": {"": [outs, final_ev]}, "oracle": oracle}
+    return {"out": {"": [outs, final_ev]}, "oracle": oracle, "full": final_full}
 
 
 if __name__ == "__main__":
